@@ -204,6 +204,26 @@ void ChannelMap::build(Plan const& p)
     dims = p.dims;
     jac = std::ldexp(1.0L, p.jexp);
     breaks.assign(chan * dims, {});
+    slo.assign(chan, 0.0L);
+    shi.assign(chan, 1.0L);
+
+    // some plans give channels other than the first a restricted support in the first dimension, so
+    // that an integrand can be zero on the whole support of a channel (its adjustment datum is then
+    // exactly zero and the refinement disables it). Never in the lattice scenario: exactness needs
+    // the enabled channels to cover the hypercube.
+    bool const restricted = p.scn != "lattice" && (mix2(p.mseed, 999) % 3 == 0);
+    singular = p.scn != "lattice" && (mix2(p.mseed, 998) % 5 == 0);
+    for (std::uint64_t c = 1; restricted && c < chan; ++c)
+    {
+        std::uint64_t const h = mix2(p.mseed, 5000 + c);
+        if (h & 1)
+        {
+            int const a = static_cast<int>((h >> 8) % 7);            // 0 .. 6
+            int const b = a + 1 + static_cast<int>((h >> 16) % (8 - a));   // a+1 .. 8
+            slo[c] = a / 8.0L;
+            shi[c] = b / 8.0L;
+        }
+    }
 
     for (std::uint64_t c = 0; c != chan; ++c)
     {
@@ -253,6 +273,7 @@ void ChannelMap::coords(std::uint32_t c, long double const* u, long double* x) c
         if (i >= B) i = B - 1;
         x[j] = t[i] + (pos - i) * (t[i + 1] - t[i]);
     }
+    if (dims != 0) x[0] = slo[c] + x[0] * (shi[c] - slo[c]);
 }
 
 long double ChannelMap::density(std::uint32_t c, long double const* x) const
@@ -262,8 +283,17 @@ long double ChannelMap::density(std::uint32_t c, long double const* x) const
     {
         auto const& t = breaks[c * dims + j];
         std::size_t const B = t.size() - 1;
+        long double xj = x[j];
+        if (j == 0)
+        {
+            // restricted support: zero density outside [slo, shi)
+            if (xj < slo[c] || (xj >= shi[c] && shi[c] < 1)) return 0;
+            long double const w = shi[c] - slo[c];
+            xj = (xj - slo[c]) / w;
+            d /= w;
+        }
         std::size_t i = 0;
-        while (i + 1 < B && x[j] >= t[i + 1]) ++i;
+        while (i + 1 < B && xj >= t[i + 1]) ++i;
         d /= B * (t[i + 1] - t[i]);
     }
     return d;
